@@ -14,7 +14,7 @@ From Coq Require Import String Ascii List Bool ZArith NArith.
 From Tally Require Import Lib.Str.
 Import ListNotations.
 Open Scope string_scope.
-Open Scope N_scope.
+Local Open Scope N_scope.
 
 (* ------------------------------------------------------------------ characters and strings *)
 Definition code (c : ascii) : N := N_of_ascii c.
@@ -228,7 +228,7 @@ Definition render_money (v : Z) : string :=
   render_N ip ++ "." ++ (if nonempty fs then fs else "0").
 
 (* civil date of a proleptic Gregorian ordinal (date.fromordinal) *)
-Open Scope Z_scope.
+Local Open Scope Z_scope.
 Definition civil (ord : Z) : Z * Z * Z :=
   let z := ord + 305 in
   let era := z / 146097 in
